@@ -86,6 +86,14 @@ example : ∃ d ∈ (Duo.init true).reach 8, d.quiet = true ∧ d.a.closed ≠ [
 end Anemo
 
 namespace Anemo
+/-- **The two-node analysis is the N-node analysis.**  In a network of any size, with any traffic between
+other pairs (connections arriving, being replaced, ending) interleaved in any way, what node `own`
+holds for peer `q` is what the operations about `q` alone produce: the pair's mutual-dial convergence
+(`C05_converges`, on two nodes) cannot be disturbed by, and does not depend on, third parties. -/
+theorem C05_third_parties_irrelevant (own : PeerId) (ops : List Op) (q : PeerId) :
+    lookupConn (Active.run own {} ops).conns q = lookupConn (Active.run own {} (ops.filter (fun o => o.peer = q))).conns q :=
+  Active.run_lookup_project own ops {} {} q rfl
+
 /-- **Every established connection, inbound or outbound, goes through `add`** (word for word the functions the two-node model was written for, checked on this run): `handle_connecting_result` hands every successful handshake to `add_peer`, which registers it through `ActivePeers::add` and starts a handler only for a connection that was kept; no other path registers, shortcuts or refuses a connection after the handshake. -/
 theorem C05_dial_path_is_pinned : Gen.dialingShapeChecked = true := rfl
 end Anemo
